@@ -36,6 +36,7 @@ func (w *world) canon() (*canonView, *simcore.Violation) {
 	for n := cv.hdr; ; n-- {
 		h := rawdb.ReadCanonicalHash(w.db, n)
 		if h == (common.Hash{}) {
+			w.gapAt = n
 			return nil, viol("canon-gap", "no canonical hash at #%d (block head #%d, header head #%d)", n, cv.head, cv.hdr)
 		}
 		if g := bc.GetCanonicalHash(n); g != h {
@@ -84,6 +85,7 @@ func (w *world) canon() (*canonView, *simcore.Violation) {
 				}
 				rcs := bc.GetReceiptsByHash(h)
 				if rcs == nil || len(rcs) != len(ref.txs) {
+					w.badBlock = node
 					return nil, viol("canon-receipts-missing", "canonical #%d %x: %d receipts for %d transactions", n, h[:4], len(rcs), len(ref.txs))
 				}
 				var logs []*types.Log
